@@ -15,7 +15,7 @@ import (
 // C03: binary derivative, autocorrelation, cumulative sums = the standard's definition.
 
 func checkC03(c statCase) (Outcome, error) {
-	bits := c.Seq.Expand()
+	bits := windowBits(c.Seq.Expand(), uint64(c.Seq.N)*2654435761+c.Seq.Seed+uint64(len(c.Test)))
 	n := len(bits)
 	what := fmt.Sprintf("%s param=%d forward=%v n=%d family=%s", c.Test, c.M, c.Flag, n, c.Seq.Family)
 	out := Outcome{Classes: seqClasses(statCase{Test: c.Test, Seq: c.Seq}, n)}
@@ -28,7 +28,7 @@ func checkC03(c statCase) (Outcome, error) {
 	switch strings.TrimSuffix(c.Test, "Bytes") {
 	case "binderiv":
 		if byteEntry {
-			gp, gq = rn.BinaryDerivativeTestBytes(gen.Pack(bits), c.M)
+			gp, gq = rn.BinaryDerivativeTestBytes(windowBytes(gen.Pack(bits), uint64(n)+c.Seq.Seed), c.M)
 		} else {
 			gp, gq = rn.BinaryDerivativeProto(bits, c.M)
 		}
@@ -36,7 +36,7 @@ func checkC03(c statCase) (Outcome, error) {
 		out.Classes = append(out.Classes, fmt.Sprintf("k=%d", c.M))
 	case "autocorr":
 		if byteEntry {
-			gp, gq = rn.AutocorrelationTestBytes(gen.Pack(bits), c.M)
+			gp, gq = rn.AutocorrelationTestBytes(windowBytes(gen.Pack(bits), uint64(n)+c.Seq.Seed), c.M)
 		} else {
 			gp, gq = rn.AutocorrelationProto(bits, c.M)
 		}
@@ -44,7 +44,7 @@ func checkC03(c statCase) (Outcome, error) {
 		out.Classes = append(out.Classes, fmt.Sprintf("d=%d", c.M))
 	case "cusum":
 		if byteEntry {
-			gp, gq = rn.CumulativeTestBytes(gen.Pack(bits), c.Flag)
+			gp, gq = rn.CumulativeTestBytes(windowBytes(gen.Pack(bits), uint64(n)+c.Seq.Seed), c.Flag)
 		} else {
 			gp, gq = rn.CumulativeTest(bits, c.Flag)
 		}
